@@ -345,8 +345,11 @@ class WorkflowDatabaseManager:
              "value": schd.config.cycle_point_dump_format},
             {"key": self.KEY_PAUSED, "value": int(schd.is_paused)},
             {"key": self.KEY_STOP_CLOCK_TIME, "value": schd.stop_clock_time},
-            {"key": self.KEY_STOP_TASK, "value": schd.stop_task},
+            {"key": self.KEY_STOP_TASK, "value": schd.pool.stop_task_id},
         ])
+        # (The whole table is rewritten: keep the hold point too.)
+        if schd.pool.hold_point is not None:
+            self.put_workflow_hold_cycle_point(schd.pool.hold_point)
 
         # Store raw initial cycle point in the DB.
         self.put_workflow_params_1(
